@@ -38,7 +38,8 @@ VARIABLES startCalled,   \* controller.Start has been called
 tvars == <<vars, tr, l, startCalled, obsFed>>
 Cfg == Trace[1]
 Mode == Cfg.mode
-Named(name, p) == IF p THEN TRUE ELSE InvFail(name)
+\* a named guard: the name is recorded only on the furthest branch (see HWReset)
+Named(name, p) == IF p THEN TRUE ELSE IF l >= TLCGet(1)[tr] THEN InvFail(name) ELSE FALSE
 TraceInit == /\ TrInit /\ CtlInit /\ DbgInit /\ startCalled = FALSE /\ obsFed = [i \in Impls |-> 0]
              /\ IoInit(IF Traces[tr][1].mode = "io" THEN Traces[tr][1].subs ELSE <<>>)
 
@@ -200,6 +201,8 @@ TraceNext == \/ TReset
              \/ TDCall \/ TDRet \/ TDbgEnd \/ DbgSilent
              \/ TMost \/ TSupp \/ TPrio \/ TProtos \/ TProtoEnd
 TraceSpec == TraceInit /\ [][TraceNext]_tvars
+\* a name recorded at an earlier position says nothing about the furthest one: forget it when the trace advances
+HWReset == IF l > TLCGet(1)[tr] THEN TLCSet(2, [TLCGet(2) EXCEPT ![tr] = "-"]) ELSE TRUE
 \* the contract; Strict = TRUE also demands what the tree is known not to deliver (named deviations switched off)
 CONSTANT Strict
 Mark == /\ CheckInv("InFlightInCurrent", InFlightInCurrent) /\ CheckInv("DeliverNoDup", DeliverNoDup)
@@ -211,5 +214,5 @@ Mark == /\ CheckInv("InFlightInCurrent", InFlightInCurrent) /\ CheckInv("Deliver
         /\ CheckInv("ResultRange", ResultRange)
         /\ CheckInv("ErrSignal", Relookup \/ ErrSignal)
         /\ CheckInv("Budget", Budget) /\ CheckInv("TotalIsSum", TotalIsSum) /\ CheckInv("Recent", Recent)
-        /\ HWMark
+        /\ HWReset /\ HWMark
 ====
